@@ -182,7 +182,7 @@ PROPS = {
     "C16": dict(suites=["PARSE-SEP", "PARSE-PATH", "PARSE-QUAL", "PARSE-TYPED", "SPELL", "FAULT", "FORMAT-1", "FORMAT-2", "BUILDER-G", "BUILDER-T", "TYPES-LOOKUP"], drivers=["garbage", "corpus"]),
     "C17": dict(suites=[], drivers=[], extra="c17",
                 assumptions=["feature sets are compile-time: the harness is compiled once per set; TLC supplies the common case stream and validates the zipped transcripts, it does not enumerate configurations"]),
-    "C18": dict(suites=["TYPES-COMB"], drivers=["combined"]),
+    "C18": dict(suites=["TYPES-COMB"], drivers=["combined", "corpus", "garbage"]),
     "C19": dict(suites=["VALUES", "PARSE-QUAL", "PARSE-QUALS2", "FORMAT-1", "QUAL"], drivers=["pairs"]),
 }
 
